@@ -17,7 +17,22 @@ cells per direction in 1-D, 2-D, 3-D, Delaunay triangle / tetrahedral grids, tri
 (sign repair branch of TriangleGrid), 2-D grids with reversed face-node order on some faces (convex fallback
 branch of _compute_geometry_2d), seeded interior-node perturbations that keep cells convex (checked
 independently -- otherwise sw.skip()), affine images (planar faces kept), perturbed hexahedra (non-planar faces:
-only A, B, D, E and |n|<=area are demanded), and rigid embeddings of 1-D / 2-D grids in 3-D.
+only A, B, D, E and |n|<=area are demanded), and rigid embeddings of 1-D / 2-D grids in 3-D.  Added later:
+  * length scales far from 1 (1-D / 2-D / 3-D Cart, Tensor and structured simplex grids with cells of size 1e-5 .. 1e4;
+    the embedding offset is scaled with the grid so that rounding of the input nodes stays below the tolerance);
+  * 2-D grids made of parts that share no faces (family ``union2d``: Cart / StructuredTriangle parts stacked into one
+    pp.Grid, face-node order kept), some parts mirrored (x -> -x: opposite sense of rotation of the node loops), in
+    minority, in majority, as exactly half of the area, and alone; and user triangulations of a patch plus its mirror
+    image with the same node triples (TriangleGrid).  Only nodes on no boundary face are perturbed, measure = sum of parts;
+  * non-convex cells: one interior node of a 2-D Cart / Tensor grid moved 75% / 90% of the way to a diagonal neighbour
+    (a 'dart' whose node average lies outside the cell).  requires = every cell is a simple polygon with the loop direction
+    of the constructed grid (``polygons_valid``); clause D is then evaluated against the outward edge normal (dy, -dx) of
+    the counter-clockwise loop instead of the centre-to-face vector (which presumes convexity).  Only generated for
+    grids with consistently oriented node loops, the documented precondition of _compute_geometry_2d for such cells.
+Seeded changes that these additions detect: unscaled probe step in _compute_geometry_1d (small cells: D, E, F, G),
+orientation check 3/3 replaced by a cell-wise sign switch (union2d with a mirrored minority part: D, F, G), orientation
+check 1/3 on |cell_faces| (dart: B, D, E, F, G), orientation check 2/3 ``== 0`` (equal mirrored halves embedded in a
+generic plane: C, F, G, H).
 
 Detection power (scratch copy of /repo/src, POREPY_SRC, one mutant at a time; exit 1 + VIOLATION unless stated otherwise):
   * grid.py _compute_geometry_2d: sub_centroids weight ``(c + 2 f)/3`` -> ``(2 c + f)/3``    -> caught by G
@@ -50,10 +65,14 @@ META = {
                  "with dense numpy on the output of the real Grid.compute_geometry over an enumerated grid family",
     "text": "Bounded assurance only: every clause of the statement (positivity, measure, |n|=area, outward normals, closure, "
             "first and second moment identities) holds on all enumerated grids (Cart/Tensor/structured and Delaunay simplex, "
-            "1-3 cells per direction, seeded convexity-preserving perturbations, affine images, embeddings in 3-D). Non-convex "
-            "cells and grids from the external mesher are not covered; no tier-Ps proof of the kernels was attempted.",
-    "note": "domain measure is taken from the construction (box extents x |det A|); validity (convexity) of perturbed cells is "
-            "checked by an independent routine and inadmissible inputs are skipped; tolerances 1e-10 relative to the magnitude of the summed terms",
+            "1-3 cells per direction, seeded convexity-preserving perturbations, affine images, embeddings in 3-D, cell sizes "
+            "1e-5..1e4, 2-D unions of face-disconnected parts with mirrored (oppositely wound) parts, and 2-D Cart/Tensor grids "
+            "with one deeply non-convex 'dart' cell). Non-convex cells are covered only in that 2-D dart form (not in 3-D, not on "
+            "grids without oriented node loops); grids from the external mesher are not covered; no tier-Ps proof of the kernels "
+            "was attempted.",
+    "note": "domain measure is taken from the construction (box extents x |det A|, sum over disconnected parts); validity of perturbed "
+            "cells (convexity, or simplicity of the polygon for dart cells) is checked by an independent routine and inadmissible inputs "
+            "are skipped; tolerances 1e-10 relative to the magnitude of the summed terms",
 }
 
 RTOL = 1e-10
@@ -94,7 +113,40 @@ def build(pp, family, args):
             ind[s:e] = ind[s:e][::-1]
         fn.indices = ind
         return pp.Grid(2, g0.nodes.copy(), fn, g0.cell_faces.copy(), "flipped-face-node CartGrid")
+    if family == "union2d":
+        # several 2-D parts that share neither nodes nor faces, stacked into one grid; a part with "mirror" is the reflection
+        # x -> -x of the constructed part (same topology, hence the opposite sense of rotation of its node loops)
+        xs, fns, cfs = [], [], []
+        for prt in args["parts"]:
+            gp = build(pp, prt["family"], prt["args"])
+            x = np.array(gp.nodes, dtype=float)
+            if prt.get("mirror"):
+                x[0] = -x[0]
+            x[0] += prt["shift"][0]
+            x[1] += prt["shift"][1]
+            xs.append(x)
+            fns.append(gp.face_nodes)
+            cfs.append(gp.cell_faces)
+        return pp.Grid(2, np.hstack(xs), _stack_csc(fns), _stack_csc(cfs), "union of face-disconnected 2-D parts")
     raise ValueError(family)
+
+
+def _stack_csc(mats):
+    """Block-diagonal stacking of csc matrices that keeps the order of the row indices within each column (the order of
+    face_nodes.indices is the orientation of a 2-D face; scipy.sparse.block_diag would sort it)."""
+    import scipy.sparse as sps
+
+    indices, indptr, data = [], [np.array([0])], []
+    row_off, nnz_off, ncol = 0, 0, 0
+    for m in mats:
+        m = sps.csc_matrix(m)
+        indices.append(m.indices + row_off)
+        indptr.append(m.indptr[1:] + nnz_off)
+        data.append(m.data)
+        row_off += m.shape[0]
+        nnz_off += m.nnz
+        ncol += m.shape[1]
+    return sps.csc_matrix((np.hstack(data), np.hstack(indices), np.hstack(indptr)), shape=(row_off, ncol))
 
 
 def topo(g):
@@ -144,6 +196,76 @@ def cells_valid(dim, nodes, CF, fnodes, eps, ref):
     return True
 
 
+def cell_loops_2d(CF, fnodes, ref):
+    """Counter-clockwise node loop of every 2-D cell, read off the reference configuration ``ref`` (the grid as
+    constructed, convex cells) by sorting the cell's nodes by angle; None if the sorted loop is not the cell's edge set."""
+    loops = []
+    for c in range(CF.shape[1]):
+        fs = np.nonzero(CF[:, c])[0]
+        edges = {frozenset(int(v) for v in fnodes[f]) for f in fs}
+        vs = sorted({v for e in edges for v in e})
+        P = ref[:2, vs]
+        ctr = P.mean(axis=1, keepdims=True)
+        o = np.argsort(np.arctan2(P[1] - ctr[1], P[0] - ctr[0]))
+        vo = [vs[i] for i in o]
+        m = len(vo)
+        if {frozenset((vo[i], vo[(i + 1) % m])) for i in range(m)} != edges:
+            return None
+        loops.append(vo)
+    return loops
+
+
+def polygons_valid(nodes, loops, eps_len, eps_area):
+    """requires (possibly non-convex 2-D cells): every cell is a simple polygon -- positive shoelace area in the loop
+    direction of the reference configuration, no vertex within eps_len of an edge it does not belong to, no two
+    non-adjacent edges crossing.  With the domain boundary fixed, simple equally oriented cells tile the domain (the
+    winding numbers of the cell loops add up to that of the boundary)."""
+
+    def orient(a, b, c):
+        return (b[0] - a[0]) * (c[1] - a[1]) - (b[1] - a[1]) * (c[0] - a[0])
+
+    def dist(p, a, b):
+        ab = b - a
+        s = min(1.0, max(0.0, float((p - a) @ ab) / float(ab @ ab)))
+        return float(np.linalg.norm(p - (a + s * ab)))
+
+    for vo in loops:
+        Q = nodes[:2, vo]
+        m = len(vo)
+        x, y = Q
+        if 0.5 * float(np.sum(x * np.roll(y, -1) - np.roll(x, -1) * y)) < eps_area:
+            return False
+        for i in range(m):
+            a, b = Q[:, i], Q[:, (i + 1) % m]
+            if np.linalg.norm(b - a) < eps_len:
+                return False
+            for k in range(m):
+                if k != i and k != (i + 1) % m and dist(Q[:, k], a, b) < eps_len:
+                    return False
+            for j in range(i + 2, m):
+                if (j + 1) % m == i:
+                    continue
+                c, d = Q[:, j], Q[:, (j + 1) % m]
+                if orient(a, b, c) * orient(a, b, d) < 0 and orient(c, d, a) * orient(c, d, b) < 0:
+                    return False
+    return True
+
+
+def outward_normals_2d(nodes, loops, CF, fnodes, R):
+    """Independent oracle for 'points out of the cell' on a simple (possibly non-convex) polygon: the outward normal of
+    the edge a -> b of a counter-clockwise loop is (dy, -dx), mapped into space by the embedding rotation R.
+    -> {(face, cell): outward 3-vector}"""
+    face_of = {frozenset(int(v) for v in fn): f for f, fn in enumerate(fnodes)}
+    out = {}
+    for c, vo in enumerate(loops):
+        m = len(vo)
+        for i in range(m):
+            a, b = vo[i], vo[(i + 1) % m]
+            d = nodes[:2, b] - nodes[:2, a]
+            out[(face_of[frozenset((a, b))], c)] = R @ np.array([d[1], -d[0], 0.0])
+    return out
+
+
 def tets_valid(nodes, tets, sign0, eps):
     a, b, c, d = (nodes[:, tets[i]] for i in range(4))
     vol = np.einsum("ij,ij->j", np.cross(b - a, c - a, axis=0), d - a) / 6.0
@@ -183,9 +305,10 @@ def faces_planar(nodes, fnodes, tol):
 # ----------------------------------------------------------------------------- the contract
 
 
-def check_geometry(g, dim, CF, fnodes, measure, planar, frame):
+def check_geometry(g, dim, CF, fnodes, measure, planar, frame, outward=None):
     """Evaluate the statement's clauses.  Returns list of (obligation, detail).  ``frame`` = None (3-D) or the
-    unit tangent (1-D) / unit plane normal (2-D) of the grid's line / plane, known from the construction."""
+    unit tangent (1-D) / unit plane normal (2-D) of the grid's line / plane, known from the construction.
+    ``outward`` (2-D grids with non-convex cells only): {(face, cell): outward edge normal} from ``outward_normals_2d``."""
     bad = []
     nodes = g.nodes
     V, xc0 = np.asarray(g.cell_volumes, float), np.asarray(g.cell_centers, float)
@@ -218,11 +341,14 @@ def check_geometry(g, dim, CF, fnodes, measure, planar, frame):
             bad.append(("compute_geometry: face normal length equals face area", "non-planar face with |n| > area"))
     # D
     fi, ci = np.nonzero(CF)
-    out = CF[fi, ci] * np.einsum("ij,ij->j", n[:, fi], xf[:, fi] - xc[:, ci])
+    if outward is None:  # convex cells: the vector from the cell centre to the face centre leaves the cell through the face
+        out = CF[fi, ci] * np.einsum("ij,ij->j", n[:, fi], xf[:, fi] - xc[:, ci])
+    else:  # simple, possibly non-convex 2-D cells: compare with the outward edge normal of the counter-clockwise loop
+        out = np.array([CF[f, c] * float(n[:, f] @ outward[(int(f), int(c))]) for f, c in zip(fi, ci)])
     if np.any(out <= 0):
         k = int(np.argmin(out))
         bad.append(("compute_geometry: face normals point out of the cell that has positive sign",
-                    f"face {fi[k]} cell {ci[k]} sigma*n.(xf-xc)={out[k]!r}"))
+                    f"face {fi[k]} cell {ci[k]} " + ("sigma*n.(xf-xc)" if outward is None else "sigma*n.(outward edge normal)") + f"={out[k]!r}"))
     # E
     clo = n @ CF
     if np.any(np.abs(clo) > RTOL * area_c[None, :]):
@@ -336,7 +462,80 @@ def _base_grids(pp, rng, quick):
         if abs(vol[vol > 1e-9].sum() - 1.0) > 1e-12:
             continue
         out.append(("tet", {"p": pts.tolist(), "tet": tet.tolist()}, 3, 1.0, "simplex"))
+    # ---- length scales far from 1 (cells of size 1e-5 .. 1e4): every clause of the statement is scale-free
+    out.append(("cart", {"n": [20], "phys": [0.01]}, 1, 0.01, "quad"))
+    out.append(("cart", {"n": [3], "phys": [3e-5]}, 1, 3e-5, "quad"))
+    out.append(("cart", {"n": [2], "phys": [2e4]}, 1, 2e4, "quad"))
+    out.append(("tensor", {"x": [[0.0, 1e-4, 2.5e-4, 1e-3]]}, 1, 1e-3, "quad"))
+    out.append(("cart", {"n": [2, 2], "phys": [1e-3, 2e-3]}, 2, 2e-6, "quad"))
+    out.append(("stri", {"n": [2, 1], "phys": [1e-4, 1e-4]}, 2, 1e-8, "simplex"))
+    out.append(("cart", {"n": [2, 3], "phys": [2e3, 1e3]}, 2, 2e6, "quad"))
+    out.append(("cart", {"n": [2, 1, 2], "phys": [1e-3, 1e-3, 2e-3]}, 3, 2e-9, "quad"))
+    out.append(("stet", {"n": [1, 2, 1], "phys": [1e-3, 2e-3, 1e-3]}, 3, 2e-9, "simplex"))
+    if not quick:
+        out.append(("cart", {"n": [2, 2, 2], "phys": [1e3, 2e3, 1e3]}, 3, 2e9, "quad"))
+        out.append(("stet", {"n": [2, 1, 1], "phys": [1e3, 1e3, 1e3]}, 3, 1e9, "simplex"))
+        out.append(("tensor", {"x": [[0.0, 2e-5, 3e-5], [0.0, 1e-5]]}, 2, 3e-10, "quad"))
+    # ---- 2-D grids made of parts that share no faces; a mirrored part has the opposite sense of rotation of its node loops
+    # (orientation checks 2/3 and 3/3 of _compute_geometry_2d).  Parts are placed in disjoint boxes, measure = sum of the parts.
+    def part(fam, n, phys, mirror, shift):
+        return {"family": fam, "args": {"n": n, "phys": phys}, "mirror": mirror, "shift": shift}
+
+    A = ("cart", [3, 2], [3.0, 2.0])
+    B = ("cart", [2, 2], [1.0, 2.0])
+    T = ("stri", [3, 2], [1.5, 1.0])
+    S = ("stri", [2, 2], [2.0, 1.0])
+    unions = [
+        ("cart3x2+cart2x2", [part(*A, False, [0.0, 0.0]), part(*B, False, [-2.0, 0.0])]),
+        ("cart3x2+Mcart2x2", [part(*A, False, [0.0, 0.0]), part(*B, True, [-1.0, 0.0])]),
+        ("Mcart2x2+cart3x2", [part(*B, True, [-1.0, 0.0]), part(*A, False, [0.0, 0.0])]),
+        ("stri3x2+Mstri2x2", [part(*T, False, [0.0, 0.0]), part(*S, True, [-1.0, 0.5])]),
+        ("cart3x2+Mcart3x2", [part(*A, False, [0.0, 0.0]), part(*A, True, [-1.0, 0.0])]),
+        ("Mcart3x2-alone", [part(*A, True, [0.0, 0.0])]),
+    ]
+    if not quick:
+        unions.append(("Mstri3x2+stri3x2+cart2x2", [part(*T, True, [-0.5, 0.0]), part(*T, False, [0.0, 0.0]), part(*B, False, [0.0, 1.5])]))
+        unions.append(("stri2x2+Mcart3x2", [part(*S, False, [0.0, 0.0]), part(*A, True, [-0.25, -1.0])]))
+    for name, parts in unions:
+        meas = sum(p["args"]["phys"][0] * p["args"]["phys"][1] for p in parts)
+        out.append(("union2d", {"name": name, "parts": parts}, 2, meas, "quad" if all(p["family"] == "cart" for p in parts) else "simplex"))
+    # a user-supplied triangulation of a patch plus its disconnected mirror image with the same node triples (TriangleGrid)
+    for nx, ny, lx, ly in ((1, 1, 1.0, 1.0), (3, 2, 1.5, 1.0)):
+        pts, tri = _mirrored_patches(nx, ny, lx, ly, 0.5)
+        out.append(("tri", {"name": f"mirrored-patches{nx}x{ny}", "p": pts, "tri": tri}, 2, 2 * lx * ly, "simplex"))
     return out
+
+
+def _mirrored_patches(nx, ny, lx, ly, gap):
+    """[0,lx]x[0,ly] split into 2 nx ny counter-clockwise triangles, plus the mirror image in the line x = lx + gap/2 listing
+    the corresponding node triples in the same order (clockwise triangles).  -> points (2 x n list), triangles (3 x m list)"""
+    stride = nx + 1
+    n_half = stride * (ny + 1)
+    pts = np.zeros((2, 2 * n_half))
+    for j in range(ny + 1):
+        for i in range(nx + 1):
+            pts[:, i + stride * j] = (lx * i / nx, ly * j / ny)
+            pts[:, n_half + i + stride * j] = (2 * lx + gap - lx * i / nx, ly * j / ny)
+    tri = []
+    for off in (0, n_half):
+        for j in range(ny):
+            for i in range(nx):
+                a = off + i + stride * j
+                tri.append([a, a + 1, a + 1 + stride])
+                tri.append([a, a + 1 + stride, a + stride])
+    return pts.tolist(), np.array(tri).T.tolist()
+
+
+def _boundary_free_nodes(g):
+    """Nodes that lie on no boundary face (a face with a single neighbouring cell): for grids made of several parts the
+    bounding box does not tell which nodes may be moved without changing the domain."""
+    CFa = abs(g.cell_faces)
+    nb = np.asarray(CFa.sum(axis=1)).ravel()
+    ptr, ind = g.face_nodes.indptr, g.face_nodes.indices
+    on_bnd = np.zeros(g.num_nodes, dtype=bool)
+    for f in np.nonzero(nb == 1)[0]:
+        on_bnd[ind[ptr[f]:ptr[f + 1]]] = True
+    return np.where(~on_bnd)[0]
 
 
 def _interior_nodes(nodes, dim, lo, hi):
@@ -372,9 +571,10 @@ def _cases(pp, rng, quick):
             continue
         base = np.array(g0.nodes, dtype=float)
         lo, hi = base.min(axis=1), base.max(axis=1)
+        extent = float(np.max(hi - lo))
         h = None
         variants = [("plain", base, measure, True)]
-        inter = _interior_nodes(base, dim, lo, hi)
+        inter = _boundary_free_nodes(g0) if (family == "union2d" or "name" in args) else _interior_nodes(base, dim, lo, hi)
         # minimal node spacing -> perturbation amplitude
         if base.shape[1] > 1:
             dd = np.linalg.norm(base[:, :, None] - base[:, None, :], axis=0)
@@ -406,6 +606,23 @@ def _cases(pp, rng, quick):
                             pert[1, i] += shift[kxy][1]
                     if shift:
                         variants.append((f"prism{s}", pert, measure, True))
+            if dim == 2 and family in ("cart", "tensor"):
+                # one interior node moved 75% / 90% of the way to a diagonally opposite node: the cell between them becomes
+                # a non-convex 'dart' whose node average lies outside the cell; all cells stay simple polygons (checked).
+                # Only for grids whose cells are consistently oriented node loops (the documented precondition of
+                # _compute_geometry_2d for non-convex cells).
+                moves = [(int(i), sx, sy, f) for i in inter for sx in (1, -1) for sy in (1, -1) for f in (0.9, 0.75)]
+                if quick:
+                    moves = [moves[(5 * k) % len(moves)] for k in range(2)]
+                for s, (i, sx, sy, f) in enumerate(moves):
+                    q = (np.sign(base[0] - base[0, i]) == sx) & (np.sign(base[1] - base[1, i]) == sy)
+                    if not q.any():
+                        continue
+                    cand = np.where(q)[0]
+                    j = cand[np.argmin(np.linalg.norm(base[:2, cand] - base[:2, [i]], axis=0))]
+                    pert = base.copy()
+                    pert[:, i] = base[:, i] + f * (base[:, j] - base[:, i])
+                    variants.append((f"dart{s}", pert, measure, True))
         # affine images (keep faces planar): shear + anisotropic scaling in the grid's own dimensions
         for s in range(1 if quick else 3):
             Aff = np.eye(3)
@@ -424,6 +641,12 @@ def _cases(pp, rng, quick):
                     continue
                 if tag != "id" and op.startswith("perturb") and op not in ("perturb0", "perturb1"):
                     continue
+                if tag != "id" and op.startswith("dart") and op not in ("dart0", "dart1", "dart2"):
+                    continue
+                if extent < 0.1:
+                    # keep the offset comparable with the grid: a translation by O(1) of a grid of size 1e-5 rounds the node
+                    # coordinates to ~1e-11 relative to the cells, which is input error and not the function's
+                    t = t * extent
                 yield {"family": family, "args": args, "dim": dim, "nodes": nodes, "measure": meas, "planar": planar,
                        "op": op, "emb": tag, "R": R, "t": t, "kind": kind}
 
@@ -439,7 +662,13 @@ def run_case(pp, case, record_branch=False):
     nat = np.array(case["nodes"], dtype=float)
     CF, fnodes = topo(g)
     h = float(np.max(np.ptp(nat, axis=1))) or 1.0
-    if dim < 3:
+    loops = None
+    if dim == 2 and case["op"].startswith("dart"):
+        # non-convex cells admitted: simple polygons with the loop direction of the grid as constructed
+        loops = cell_loops_2d(CF, fnodes, np.array(g.nodes, dtype=float))
+        if loops is None or not polygons_valid(nat, loops, 1e-3 * h, 1e-6 * h * h):
+            return "skip", None
+    elif dim < 3:
         ref = np.array(g.nodes, dtype=float)
         if case["op"].startswith("affine"):
             ref = nat  # an affine map with positive determinant keeps validity; orientation is taken from the image itself
@@ -467,7 +696,8 @@ def run_case(pp, case, record_branch=False):
         fallback = any("Orientations are inconsistent" in str(x.message) for x in w)
     except Exception as e:  # a crash on an admissible grid is a violated postcondition
         return "ok", ([("compute_geometry: returns on an admissible grid", f"{type(e).__name__}: {e}")], False)
-    return "ok", (check_geometry(g, dim, CF, fnodes, case["measure"], planar, frame), fallback)
+    outward = None if loops is None else outward_normals_2d(nat, loops, CF, fnodes, R)
+    return "ok", (check_geometry(g, dim, CF, fnodes, case["measure"], planar, frame, outward), fallback)
 
 
 def _json_case(case):
@@ -482,7 +712,9 @@ def run(rep):
     rep.under_contract("Grid.compute_geometry", "Grid._compute_geometry_1d", "Grid._compute_geometry_2d", "Grid._compute_geometry_3d",
                        "TensorGrid/CartGrid topology", "TriangleGrid/StructuredTriangleGrid topology",
                        "TetrahedralGrid/StructuredTetrahedralGrid topology", "map_geometry.compute_tangent (1-D normals)")
-    rep.assume("requires: cells are non-degenerate and convex (checked by an independent routine; other generated inputs are skipped)",
+    rep.assume("requires: cells are non-degenerate and convex (checked by an independent routine; other generated inputs are skipped); "
+               "for the 2-D 'dart' operation on grids with oriented node loops: cells are simple polygons with positive area "
+               "(outwardness is then judged against the outward edge normal of the counter-clockwise loop)",
                "requires (clauses C-equality, F, G, H): faces are planar; for perturbed hexahedra (non-planar faces) only A, B, D, E and |n|<=area are demanded",
                "the domain measure is known from the construction (box extents, |det| of the affine map); Delaunay families include the box corners")
     rep.trust("scipy.spatial.Delaunay only as a generator of input triangulations")
@@ -490,10 +722,12 @@ def run(rep):
     with rep.sweep(
         "compute_geometry identities",
         rule="grid family (Cart/Tensor/StructuredTriangle/StructuredTetrahedral 1..3 cells per direction, Delaunay, clockwise-cell and "
-             "reversed-face-node variants) x node operation (plain | seeded interior perturbation amplitudes 0.1/0.3/0.45 h | affine map) x rigid "
+             "reversed-face-node variants, cell sizes 1e-5..1e4, unions of face-disconnected 2-D parts with mirrored parts, mirrored "
+             "triangle patches) x node operation (plain | seeded interior perturbation amplitudes 0.1/0.3/0.45 h | affine map | one "
+             "interior node of a 2-D Cart/Tensor grid moved 75/90% towards a diagonal neighbour -> non-convex dart cell) x rigid "
              "embedding of 1-D/2-D grids in 3-D; non-trivial = anything but an unperturbed unit-spacing grid in natural position; distinct by "
              "(family, args, operation, embedding)",
-        bound="<= 3 cells per direction (27 hexahedra / 162 tetrahedra); 2 (quick) / 6 (thorough) perturbation seeds per grid; 3 / 5 embeddings",
+        bound="<= 3 cells per direction (27 hexahedra / 162 tetrahedra; 20 cells for the small-cell 1-D grid; <= 3 parts per union); 2 (quick) / 6 (thorough) perturbation seeds per grid; 3 / 5 embeddings",
         exhaustive=False,
     ) as sw:
         for case in _cases(pp, rep.rng, quick):
